@@ -22,3 +22,21 @@ CHECKS["C04"] = (
     "Held on the executions observed: for every scenario (version x key exchange, HRR, PSK, resumption, client auth) the honest flights are recorded and replayed with one in-flight edit each (byte position x mask over plaintext flights incl. record headers - every byte in the thorough tier -, record drop/duplicate/swap/insert, structured ClientHello/ServerHello/HRR rewrites); whenever both endpoints complete their views must be identical and equal to the baseline; sentinel and FALLBACK_SCSV have their own wire-order / alert clauses.",
     "Replays rely on the harness DRBG and virtual clock making runs bit-identical (self-checked per scenario); a removed second line of defence still covered by Finished is invisible to the outcome clauses.",
     "DESIGN.md section 3, C04")
+CHECKS["C09"] = (
+    "exploration",
+    "runtime monitoring: differential oracle of every symmetric primitive / KDF / traffic-key derivation against the OpenSSL CLI and spec-straight references",
+    "Held on the inputs observed: seeded keys, nonces, AAD and messages over the boundary length classes (block edges, CTR/GCM counter carries, CCM AAD-length switch, HKDF ceiling, multi-call streaming splits); AES/CBC/CTR/3DES/RC4/ChaCha20/Poly1305 against openssl enc/mac, GCM/CCM/AEAD/PRFs/HKDF/SSLv3 MAC+digest/calc_key against harness references audited against OpenSSL in the same run, AEAD open() with exhaustive single-bit/truncation/wrong-key negatives on short messages, and record-layer ciphertext against independently derived key blocks.",
+    "OpenSSL 3.x CLI trusted as primitive reference; GCM/CCM/AEAD/SSLv3/Expand-Label compositions are harness code validated on published vectors; CTR judged under per-call SP 800-38A semantics; python back ends only.",
+    "DESIGN.md section 3, C09")
+CHECKS["C10"] = (
+    "exploration",
+    "runtime monitoring: sign/verify round trips, OpenSSL cross-verification, private-key-constructed malformed signatures, bad key shares, and computation-fault injection with a wire monitor",
+    "Held on the inputs observed: every key type x scheme x hash round-trips and cross-verifies with OpenSSL both ways; ~45 PKCS#1/PSS, ~35 ECDSA/DSA DER and 12 EdDSA malformations constructed with the private key plus bit flips must be rejected; every group's honest exchange agrees with independent references and every bad share class (0, 1, p-1, p, off-curve, aliases, low-order) is refused; with a fault injected into each private-key operation of each handshake flavour no signature that fails to verify leaves the endpoint.",
+    "Fault = wrong return value of the private primitive; OpenSSL CLI is the independent verifier; ECDSA (r, n-s) malleability and absent DigestInfo parameters recorded, not judged.",
+    "DESIGN.md section 3, C10")
+CHECKS["C11"] = (
+    "exploration",
+    "runtime monitoring: exact-value differential of RSAKey.decrypt against an independent implicit-rejection implementation + server behaviour-signature equality under a ClientKeyExchange-rewriting MITM",
+    "Held on the inputs observed: for every padding-defect class, boundary length and value the decrypt result equals the real message or the specification's synthetic message (so its length distribution cannot depend on the defect), is deterministic across calls and key objects, and publicly invalid ciphertexts fail; in RSA-key-exchange handshakes of SSLv3..TLS 1.2 the server's observable behaviour (records consumed, records emitted, alert, failure point) is identical for 42 malformed-premaster classes.",
+    "Timing is not an observable; keys without CRT parameters outside the domain.",
+    "DESIGN.md section 3, C11")
